@@ -279,14 +279,22 @@ func (commit *Commit) Height() int64 {
 	if len(commit.Precommits) == 0 {
 		return 0
 	}
-	return commit.FirstPrecommit().Height
+	first := commit.FirstPrecommit()
+	if first == nil {
+		return 0
+	}
+	return first.Height
 }
 
 func (commit *Commit) Round() int64 {
 	if len(commit.Precommits) == 0 {
 		return 0
 	}
-	return commit.FirstPrecommit().Round
+	first := commit.FirstPrecommit()
+	if first == nil {
+		return 0
+	}
+	return first.Round
 }
 
 func (commit *Commit) Type() byte {
